@@ -30,7 +30,7 @@ Definition spec_member (t : Z) (us : list update) (i : Z) (m : member) : member 
   let o := flipped (m_orient m) (length (filter u_rev l)) in
   match last_opt l with
   | None => m
-  | Some u => mkMember (m_type m) (m_ref m) (m_role m) (u_ver u) (u_cs u) (u_lat u) (u_lon u) o
+  | Some u => mkMember (m_type m) (m_ref m) (m_role m) (u_ver u) (u_cs u) (u_lat u) (u_lon u) o (m_nodes m)
   end.
 
 Fixpoint mapi_from {A B} (i : Z) (f : Z -> A -> B) (l : list A) : list B :=
